@@ -140,7 +140,9 @@ Inductive case :=
 (* watch-only wallet from an extended public key string: addresses / keys / row of the node at a sub-path,
    next to what the full wallet (built from the seed) gives at export-path ++ sub-path *)
 | Watch (o : oracles) (w : wspec) (export_path : list Z) (xpub : str) (sub : list Z)
-        (ob : res tree) (full : res tree).
+        (ob : res tree) (full : res tree)
+(* private-data requests on a watch-only wallet: observed dict {watch_only, bip85, xprv, keys, row} for the node at `sub` *)
+| WatchPriv (o : oracles) (xpub : str) (sub : list Z) (purpose : Z) (ob : res tree).
 
 Definition watch_tree (o : oracles) (w : wallet) (nd : node) : res tree :=
   let sha := sha256 o in let h := rmd160 sha in
@@ -156,8 +158,37 @@ Definition watch_tree (o : oracles) (w : wallet) (nd : node) : res tree :=
              (k "depth", TStr (str_of_int (ndepth nd))); (k "index", TStr (str_of_int (nindex nd)));
              (k "pfpr", TStr (hexstr pf))]).
 
+Definition watch_priv_tree (o : oracles) (w : wallet) (nd : node) (purpose : Z) : res tree :=
+  let sha := sha256 o in let h := rmd160 sha in
+  let xprv := match node_extended_private_key C sha h A w nd with Ok s => TStr s | Err => TStr (k "ERR") end in
+  do keys <- node_extended_keys C sha h A w nd;
+  do rw <- row C sha h A purpose w nd;
+  Ok (TDict [(k "watch_only", TStr (if w_watch_only w then k "True" else k "False"));
+             (k "bip85", TStr (if w_watch_only w then k "None" else k "obj"));
+             (k "xprv", xprv); (k "keys", keys); (k "row", rw)]).
+
 Definition check_case (c : case) : Z :=
   match c with
+  | WatchPriv o xpub sub purpose ob =>
+      let m :=
+        do we <- from_extended_key A (sha256 o) xpub;
+        let w := {| w_master := fst we; w_testnet := snd we; w_mnemonic := None; w_password := None |} in
+        do nd <- derive_path C (hmac512 o) (w_master w) sub;
+        watch_priv_tree o w nd purpose in
+      let agrees := beq_res beq_tree m ob in
+      let prop :=
+        match ob with
+        | Ok t =>
+            beq_res beq_tree (tget (k "watch_only") t) (Ok (TStr (k "True")))
+            && beq_res beq_tree (tget (k "bip85") t) (Ok (TStr (k "None")))
+            && beq_res beq_tree (tget (k "xprv") t) (Ok (TStr (k "ERR")))
+            && beq_res beq_tree (bind (tget (k "keys") t) (tget (k "prv"))) (Ok TNone)
+            && match tget (k "row") t with Ok (TList l) => match rev l with TNone :: _ => true | _ => false end | _ => false end
+            (* and nothing in the whole answer decodes to a private-key encoding *)
+            && forallb (fun l => negb (looks_private (sha256 o) l)) (leaves t)
+        | Err => true
+        end in
+      verdict agrees prop
   | Gen o ws account lo hi ob =>
       let m := bind (mk_wallet o ws) (fun w => generate C (hm o) (sha o) (h160 o) A w account lo hi) in
       let agrees := beq_res beq_tree m ob in
